@@ -132,7 +132,8 @@ def run(ctx):
         h = ctx.extra.get("harness", {})
         sc = h.get("states", {}).get("counters") or {}
         for need in ("deliver_forged", "deliver_dup", "deliver_intruder", "deliver_echo", "deliver_genuine", "admitted", "rejected",
-                     "behaviours_with_early_message", "behaviours_with_duplicate", "party_contexts", "probes"):
+                     "behaviours_with_early_message", "behaviours_with_duplicate", "party_contexts", "probes",
+                     "admitted_in_silent_state"):
             if not sc.get(need):
                 ctx.broken("state replay never exercised %s" % need)
         if (h.get("execute", {}).get("counters") or {}).get("real_keygens", 0) < len(chosen):
